@@ -280,6 +280,15 @@ class Sim:
                     cur = None
                 if len(E) == 1:
                     return E[0]
+        if kind == 'abs':
+            # explicit schedule: the tape names the process slot to run at each decision (long runs of one process)
+            pos = int(self.hdr[H_TAPEPOS])
+            if pos < len(self.tape):
+                v = self.tape[pos]
+                self.hdr[H_TAPEPOS] = pos + 1
+                if v in E:
+                    return v
+            return cur if cur is not None else E[0]
         # tape driven choice ('tape' and 'starve')
         pos = int(self.hdr[H_TAPEPOS])
         if pos < len(self.tape):
